@@ -44,6 +44,11 @@ TripSlices ==
       [] Slice = "srEvents" -> {[BaseTrip EXCEPT !.stus = <<[BaseStu EXCEPT !.sr = r, !.arr = a, !.dep = d]>>] : r \in 0..3,
                                   a \in {None, Some(NoEv), Some([time |-> Some(5), delay |-> None, unc |-> None]), Some([time |-> Some(0), delay |-> Some(1), unc |-> Some(0)])},
                                   d \in {None, Some(NoEv), Some([time |-> Some(5), delay |-> None, unc |-> None]), Some([time |-> None, delay |-> Some(0), unc |-> Some(3)])}}
+      (* the same stop time updates in another order are other data, whatever their sequence numbers say *)
+      [] Slice = "order"  -> LET A == [BaseStu EXCEPT !.seq = Some(1), !.stop = Some(<<97>>)]
+                                 B == [BaseStu EXCEPT !.seq = Some(2), !.stop = Some(<<98>>)]
+                                 C == [BaseStu EXCEPT !.seq = Some(3), !.stop = Some(<<97>>), !.arr = None]
+                             IN {[BaseTrip EXCEPT !.stus = q] : q \in {<<A, B>>, <<B, A>>, <<A, B, C>>, <<A, C, B>>, <<C, B, A>>, <<B, A, C>>, <<C, A, B>>, <<B, C, A>>, <<A, A>>, <<A>>}}
       [] Slice = "stu2"   -> {[BaseTrip EXCEPT !.stus = <<BaseStu, a, b>>] : a \in {x \in Stus : x.sr = 0 /\ x.arr = None}, b \in {x \in Stus : x.seq = None /\ x.track = None}}
       [] Slice = "hdr2"   -> {[BaseTrip EXCEPT !.id = a, !.route = b, !.dir = d, !.hasSD = hd, !.sd = IF hd THEN 7 ELSE ZeroTime, !.hasST = ht, !.st = IF ht THEN st ELSE 0,
                                                !.stus = IF n = 0 THEN <<>> ELSE <<BaseStu>>] :
